@@ -654,6 +654,9 @@ func c18(c *eng.Ctx) {
 				b := 2
 				if c.Thorough() {
 					b = -1
+					if pm == 3 {
+						b = 3 // every parameter read is a scheduling point here: unbounded exploration does not finish
+					}
 				}
 				jobs = append(jobs, c18Scenario{TS: ti, Ops: ops, ParamMode: pm, Bound: b})
 			}
@@ -803,7 +806,7 @@ func c18(c *eng.Ctx) {
 	if !done {
 		c.Capped(fmt.Sprintf("scenario list cut by deadline or worker death: %d of %d scenarios completed", completed.Load(), len(jobs)))
 	}
-	c.Subspace("schedule-exploration", c.Evals()-before, done, fmt.Sprintf("%d scenarios, each in a fresh process: 14 codecs x {EE,ED,DD} x 4 parameter modes (preemption bound 2 in quick, every schedule in thorough); EED (bound 1 / 2); every format x SPP {1,3} x sizes {3x2,9x10,17x9,1x7,1x1} x {E,D} x 4 parameter modes solo with state digests; every valid E3 seed stream (reference encoders, preset parameters, spliced segments, ROI/MCT/tiles/layers) decoded twice through every codec of its family with state digests; a defaults object edited by its owner (every tunable, custom keys, matrices) and never passed must leave the next defaults object, the codec, the package state and Encode(nil) unchanged, ED interleavings per format; heterogeneous scenarios {EE,ED,DE,DD} x 2 format offsets x SPP x {nil, shared} parameters", len(jobs)))
+	c.Subspace("schedule-exploration", c.Evals()-before, done, fmt.Sprintf("%d scenarios, each in a fresh process: 14 codecs x {EE,ED,DD} x 4 parameter modes (preemption bound 2 in quick; thorough: every schedule, bound 3 for the generic parameters object whose every read is a scheduling point); EED (bound 1 / 2); every format x SPP {1,3} x sizes {3x2,9x10,17x9,1x7,1x1} x {E,D} x 4 parameter modes solo with state digests; every valid E3 seed stream (reference encoders, preset parameters, spliced segments, ROI/MCT/tiles/layers) decoded twice through every codec of its family with state digests; a defaults object edited by its owner (every tunable, custom keys, matrices) and never passed must leave the next defaults object, the codec, the package state and Encode(nil) unchanged, ED interleavings per format; heterogeneous scenarios {EE,ED,DE,DD} x 2 format offsets x SPP x {nil, shared} parameters", len(jobs)))
 	// heterogeneous scenarios once more, each from a fresh process (4 at a time): nothing an earlier scenario left behind
 	// can make the solo runs and the interleaved runs agree by being polluted alike
 	before = c.Evals()
